@@ -35,13 +35,52 @@ ZoneOnlyOK(r, x) ==
   /\ IF x[2] = 0 THEN (IF x[3] THEN r.latq >= 84000000 ELSE r.latq < -80000000)
      ELSE /\ r.zb = x[4] - 10
           /\ r.dl >= 0 /\ r.dl < 3000000
+  \* ... in longitude too: the grid zone's own interval (Norway / Svalbard exceptions), where the standard has that grid zone
+  /\ (x[2] > 0 => LET I == GridZoneLon(x[2], x[4])
+                       lon == IF r.lonq = 180000000 THEN -180000000 ELSE r.lonq
+                   IN I = <<0, 0>> \/ (lon >= 1000000 * I[1] /\ lon < 1000000 * I[2]))
+  \* ... and it is named by the forward conversion: the grid zone designation of the returned point (prec = -1) is the
+  \* string itself (zone padded to two digits); for UPS this is the half A/B, Y/Z (west / east of the 0-180 meridian)
+  /\ r.grid
+  /\ LET X == HalfUmMetres(r.x)  Y == HalfUmMetres(r.y)
+         gzd == IF x[2] = 0 THEN <<UPSBands[x[4] + 1]>> ELSE <<48 + x[2] \div 10, 48 + (x[2] % 10), LatBands[x[4] + 1]>>
+     IN X[2] /\ Y[2] /\ Forward(x[2], x[3], <<X[1], 0>>, <<Y[1], 0>>, -1, {r.zb}) = {<<"ok", gzd>>}
 
-MrOK(r) ==
-  LET x == Reverse(Tbl, r.code, r.c) IN
+MrOKx(r, x) ==
   CASE x[1] = "throw" -> r.out = "throw" /\ r.untouched
     [] x[1] = "nan" -> r.out = "nan" /\ r.zone = -4 /\ r.p = -2
     [] x[1] = "zoneonly" -> ZoneOnlyOK(r, x)
     [] x[1] = "ok" -> r.out = "ok" /\ r.grid /\ r.zone = x[2] /\ r.northp = x[3] /\ r.p = x[4] /\ r.x = x[5] /\ r.y = x[6]
+
+\* the six-argument call of Reverse (centerp defaulted; documented default TRUE = centre of the square)
+MrDefOKx(r, x) ==
+  LET o == r.def IN
+  CASE x[1] = "throw" -> o.out = "throw" /\ o.untouched
+    [] x[1] = "nan" -> o.out = "nan" /\ o.zone = -4 /\ o.p = -2
+    [] x[1] = "zoneonly" -> o.out = "ok" /\ o.p = -1 /\ o.zone = x[2] /\ o.northp = x[3] /\ o.x = r.x /\ o.y = r.y   \* centerp ignored
+    [] x[1] = "ok" -> o.out = "ok" /\ o.grid /\ o.zone = x[2] /\ o.northp = x[3] /\ o.p = x[4] /\ o.x = x[5] /\ o.y = x[6]
+
+MrDefOK(r) == MrDefOKx(r, Reverse(Tbl, r.code, TRUE))
+
+\* MGRS::Decode: the documented syntactic split; a failing call leaves its outputs unchanged
+DecOK(r) ==
+  LET o == r.dec
+      d == DecodeSyn(r.code) IN
+  IF d[1] = "throw" THEN o.out = "throw" /\ o.untouched
+  ELSE o.out = "ok" /\ o.gz = d[2] /\ o.blk = d[3] /\ o.e = d[4] /\ o.n = d[5]
+
+\* the overload with a supplied latitude
+MflOK(r) ==
+  LET O == ForwardLat(Tbl, r.z, r.n, r.x, r.y, r.la, r.p) IN
+  IF r.out = "throw" THEN <<"throw">> \in O /\ r.untouched
+  ELSE r.out = "ok" /\ <<"ok", r.code>> \in O
+
+MrOK(r) == MrOKx(r, Reverse(Tbl, r.code, r.c))
+\* all three obligations of an "mr" line, the model evaluated once when centerp = TRUE was requested
+MrAllOK(r) ==
+  LET x == Reverse(Tbl, r.code, r.c)
+      xd == IF r.c THEN x ELSE Reverse(Tbl, r.code, TRUE)
+  IN MrOKx(r, x) /\ MrDefOKx(r, xd) /\ DecOK(r)
 
 Tol == 4    \* nm
 MrtOK(r) ==
@@ -61,23 +100,33 @@ MrtOK(r) ==
   /\ (r.z > 0 => r.n2 = r.n \/ r.dedge <= Band5nm)      \* hemisphere preserved (equator edge excepted)
   /\ (r.z = 0 => r.n2 = r.n)
   /\ r.lateq /\ r.caseeq
+  \* the default of centerp is the centre: same zone / hemisphere / precision, and the point within half a cell
+  /\ r.d6out = "ok" /\ r.z6 = r.z2 /\ r.n6 = r.n2 /\ r.p6 = r.p2
+  /\ (r.p >= 0 => r.exd[1] <= Tol /\ r.exd[2] <= Tol)
   /\ LET y == Reverse(Tbl, r.code, TRUE) IN y[1] \in {"ok", "zoneonly"}
 
 MnanOK(r) == r.out = "ok" /\ UpperS(r.code) = <<73, 78, 86, 65, 76, 73, 68>> /\ r.dout = "ok" /\ r.isnan /\ r.z2 = -4 /\ r.p2 = -2
 
 Obligation(r) ==
   CASE r.e = "hdr" -> Len(r.tbl) = 5 /\ Len(r.tbl[1]) = 97
-    [] r.e = "mf" -> MfOK(r) [] r.e = "mr" -> MrOK(r) [] r.e = "mrt" -> MrtOK(r) [] r.e = "mnan" -> MnanOK(r)
+    [] r.e = "mf" -> MfOK(r) [] r.e = "mr" -> MrAllOK(r) [] r.e = "mrt" -> MrtOK(r) [] r.e = "mnan" -> MnanOK(r)
+    [] r.e = "mfl" -> MflOK(r)
     [] OTHER -> FALSE
+
+\* name of the violated law (evaluated for rejected lines only)
+Law(r) ==
+  IF r.e = "mr" THEN (IF ~MrOK(r) THEN "mgrs-mr" ELSE IF ~MrDefOK(r) THEN "mgrs-mr-defaultcenterp" ELSE "mgrs-decode")
+  ELSE "mgrs-" \o r.e
 
 Expected(r) ==
   CASE r.e = "mf" -> Forward(r.z, r.n, r.x, r.y, r.p, IF r.z # 0 /\ r.lok THEN {r.band, r.nb} ELSE {0})
-    [] r.e = "mr" -> Reverse(Tbl, r.code, r.c)
+    [] r.e = "mr" -> IF ~MrOK(r) THEN Reverse(Tbl, r.code, r.c) ELSE IF ~MrDefOK(r) THEN Reverse(Tbl, r.code, TRUE) ELSE DecodeSyn(r.code)
+    [] r.e = "mfl" -> ForwardLat(Tbl, r.z, r.n, r.x, r.y, r.la, r.p)
     [] OTHER -> <<>>
 
 Init == l = 1 /\ KitInit
 Next == /\ l <= NT
-        /\ Require(Obligation(T[l]), l, "mgrs-" \o T[l].e, Expected(T[l]))
+        /\ Require(Obligation(T[l]), l, Law(T[l]), Expected(T[l]))
         /\ Consumed(l)
         /\ l' = l + 1
 =============================================================================
